@@ -189,7 +189,8 @@ def has_abc(a):
 def matcher(f, case):
     m = f.get('matcher', {})
     if m.get('id') == 'abc_spelled_generic':
-        return has_abc(case.get('reified', case).get('ann'))
+        # only the registered symptom: rejected with PedanticTypeCheckException, and the faithful model says the same
+        return has_abc(case.get('reified', case).get('ann')) and case.get('_I') == 1 and case.get('_M') == 1
     if m.get('id') == 'corner_call':
         return case.get('obs') == 'corner' and case.get('name') in m.get('names', []) and case.get('exc_class') == m.get('exc_class')
     return False
@@ -282,7 +283,7 @@ def run(pid, tier, seed, replay, props, judge, extra_streams=None, rule_extra=''
         by_grp[(c['grp'], c['stream'], k)] = info
         what = judge(ck, c, r, I, M, S, sup)
         if what:
-            ck.violation(what, dict(c, reified={'ann': r['ann'], 'val': r['val']}), stream=c['stream'], matcher=matcher,
+            ck.violation(what, dict(c, reified={'ann': r['ann'], 'val': r['val']}, _I=I, _M=M), stream=c['stream'], matcher=matcher,
                          extra={'impl': {'out': OUT_NAMES.get(I, I), 'exc': r.get('exc'), 'body_ran': r.get('body_ran')},
                                 'model_out': OUT_NAMES.get(M, M), 'spec': {0: 'Unspec', 1: 'Must', 2: 'MustNot'}[S], 'supported': bool(sup)})
         elif not corr:
